@@ -3,10 +3,16 @@
   Part 1 (this file, abstract level): `delete_object` clears a bound pid from
   any state, including the dangling ones the public API can create by tagging a
   cid that was never stored; objects appear only by being stored.
-  Part 2 (Props/C05Concrete.lean, concrete level): the two on-disk indexes of
-  the concrete model agree with each other after every call.
+  Part 2 (end of this file, concrete level): the two on-disk indexes of the
+  concrete model (`refs/pids`, `refs/cids` as files with text contents) agree
+  with each other after every completed call of every history, and no temp file
+  or marker is left — proved on the program text of the calls, run sequentially
+  with no fault plan.
 -/
 import HSModel.Proofs.StepLemmas
+import HSModel.Proofs.RefsSafe
+import HSModel.Proofs.DiscRun
+import HSModel.Proofs.Disc
 namespace HS.C05
 open Abs
 variable (cfg : Config) (o : Oracle)
@@ -132,5 +138,115 @@ theorem objects_only_by_store (a : Abs) (call : Call) (c : Str) (t : Tok)
     simp only [step, hexDigest] at h
     repeat' split at h
     all_goals exact h
+
+
+/-! ### Part 2: the concrete indexes -/
+
+/-- cids handed to `tag_object` are not deletion-marker names (they are digests) -/
+def CidArgPlain : Call → Prop
+  | .tagObject _ (.str c) => Plain c
+  | _ => True
+
+/-- a run without fault plan never acquires one -/
+theorem run_keeps_no_fault {α : Type} (m : Prog α) (w : World) (h : w.fault = none) : (m.run w).2.fault = none := by
+  induction m generalizing w with
+  | ret a => exact h
+  | op e k ih =>
+    simp only [Prog.run]
+    apply ih
+    have hf : faultStep w e = (false, w) := by simp [faultStep, h]
+    unfold respond
+    rw [hf]
+    simp only [Bool.false_eq_true, if_false]
+    cases e <;> simp only [respondCore, applyEff] <;> (try split) <;> (try split) <;> first | exact h | rfl
+
+/-- **one call**: from a store whose two indexes agree (`RefsExact`), every
+    public call with any arguments, run to completion with free locks and no
+    injected fault, leaves a store whose two indexes agree, with no refs/objects
+    temp file and no marker among references and objects -/
+theorem concrete_exact_step (c : Call) (st : Store) (log : List Eff) (h : RefsExact o st)
+    (hid : PlainIds o) (hdg : PlainDigests o) (hinj : Inj o.hId) (hc : CidArgPlain c) :
+    RefsExact o ((c.prog cfg o).run (calm st log)).2.st := by
+  cases c with
+  | storeObject p d a cks ca s => exact store_exact cfg o st log p d a cks ca s h hdg
+  | tagObject p c =>
+    refine tag_exact cfg o st log p c h ?_
+    intro c' hc'; subst hc'; exact hc
+  | deleteObject p => exact delete_exact o cfg st log p h hid (fun p q _ e => hinj q p e)
+  | deleteIfInvalid om c ca s =>
+    exact Prog.run_inv _ (deleteIfInvalid_safe cfg o om c ca s) (refsExact_safe_preserved o) _ h
+  | storeMetadata p d f =>
+    exact Prog.run_inv _ (storeMetadata_safe cfg o p d f) (refsExact_safe_preserved o) _ h
+  | retrieveObject p =>
+    exact Prog.run_inv _ (retrieveObject_safe cfg o p) (refsExact_safe_preserved o) _ h
+  | retrieveMetadata p f =>
+    exact Prog.run_inv _ (retrieveMetadata_safe cfg o p f) (refsExact_safe_preserved o) _ h
+  | deleteMetadata p f =>
+    exact Prog.run_inv _ (deleteMetadata_safe cfg o p f) (refsExact_safe_preserved o) _ h
+  | getHexDigest p a =>
+    exact Prog.run_inv _ (getHexDigest_safe cfg o p a) (refsExact_safe_preserved o) _ h
+
+/-- **every history**: starting from the empty store, after each completed call
+    of any sequence of public calls the concrete reference bookkeeping is exact -/
+theorem concrete_exact_history (cs : List Call) (hid : PlainIds o) (hdg : PlainDigests o) (hinj : Inj o.hId)
+    (hcs : ∀ c ∈ cs, CidArgPlain c) :
+    RefsExact o (cs.foldl (fun w c => ((c.prog cfg o).run w).2) (calm Store.empty [])).st := by
+  suffices H : ∀ (w : World), w.lk = {} → w.fault = none → RefsExact o w.st →
+      RefsExact o (cs.foldl (fun w c => ((c.prog cfg o).run w).2) w).st from
+    H _ rfl rfl (refsExact_empty o)
+  induction cs with
+  | nil => intro w _ _ h; exact h
+  | cons c r ih =>
+    intro w hlk hnf h
+    have hw : w = calm w.st w.log := by
+      obtain ⟨st, lk, fault, log⟩ := w
+      simp only at hlk hnf
+      subst hlk; subst hnf; rfl
+    simp only [List.foldl_cons]
+    apply ih (fun c' hc' => hcs c' (List.mem_cons_of_mem _ hc'))
+    · obtain ⟨h', hm, _, hp⟩ := Prog.disc_run _ _ [] w (call_neutral cfg o c)
+        (by rw [hlk]; exact matches_empty) List.Pairwise.nil
+      subst hp
+      exact matches_nil_iff _ hm
+    · exact run_keeps_no_fault _ w hnf
+    · rw [hw]
+      exact concrete_exact_step cfg o c w.st w.log h hid hdg hinj (hcs c (List.mem_cons_self ..))
+
+/-- what exactness says, spelled out: a bound pid is listed by exactly its cid,
+    once; every list is non-empty and names only pids bound to it -/
+theorem exact_means (s : Store) (h : RefsExact o s) (hinj : Inj o.hId) (p c : Str)
+    (hb : s.pidRefs.get (o.hId p) = some c) :
+    ∃ ls, s.cidRefs.get c = some (renderLines ls) ∧ ls.Nodup ∧ p ∈ ls ∧
+      ∀ c' ls', s.cidRefs.get c' = some (renderLines ls') → (∀ l ∈ ls', hasSpace l = false) → p ∈ ls' → c' = c := by
+  obtain ⟨q, hq, _, t, ht, hin⟩ := h.pid_listed _ _ hb
+  have hqp : q = p := hinj q p hq.symm
+  subst hqp
+  obtain ⟨ls, hls, _, hnd, hall⟩ := h.list_ok c t ht
+  subst hls
+  have hsp : ∀ l ∈ ls, hasSpace l = false := fun l hl => nospace_of_ok (hall l hl).1
+  refine ⟨ls, ht, hnd, ?_, ?_⟩
+  · rw [inRefs_render q ls hsp] at hin; simpa using hin
+  · intro c' ls' hc' hsp' hmem
+    obtain ⟨ls0, hls0, _, _, hall0⟩ := h.list_ok c' _ hc'
+    have hsp0 : ∀ l ∈ ls0, hasSpace l = false := fun l hl => nospace_of_ok (hall0 l hl).1
+    have := renderLines_inj ls' ls0 hsp' hsp0 hls0
+    subst this
+    have := (hall0 q hmem).2
+    rw [hb] at this
+    cases this; rfl
+
+/-- the hypotheses are satisfiable together: a collision-free identifier hash
+    whose values are never marker names, and digests likewise -/
+def sampleOracle : Oracle := { hId := fun s => s ++ ['0'], dig := fun _ t => (toString t).toList ++ ['0'], size := fun t => t }
+
+theorem sample_ok : PlainIds sampleOracle ∧ PlainDigests sampleOracle ∧ Inj sampleOracle.hId := by
+  have key : ∀ s : Str, Plain (s ++ ['0']) := by
+    intro s h
+    obtain ⟨t, ht⟩ := h
+    have h2 := congrArg List.getLast? ht
+    simp [deleteSuffix] at h2
+  refine ⟨fun p => key p, fun a t => key _, ?_⟩
+  intro a b hab
+  exact List.append_cancel_right hab
 
 end HS.C05
